@@ -243,7 +243,12 @@ func ruleNotAliasSafeCallers(w *World, r *RuleResult) {
 	if f.Object() != nil && f.Object().Exported() {
 		r.bad("(*Context).integerPower | internal", w.pos(f.Pos()), "function documented as not alias-safe became exported")
 	}
-	di, xi := paramIndex(f, "d"), paramIndex(f, "x")
+	di, xi := destArgIndex(w, f), -1
+	for i, q := range f.Params {
+		if i != di && isDecimalPtr(q.Type()) && xi < 0 {
+			xi = i
+		}
+	}
 	if di < 0 || xi < 0 {
 		r.anchorMissing("(*Context).integerPower params d,x")
 		return
@@ -302,7 +307,7 @@ func (w *World) guardedDistinct(g *ssa.Function, call ssa.CallInstruction, a, b 
 		return true
 	}
 	f := callee(call)
-	di := paramIndex(f, "d")
+	di := destArgIndex(w, f)
 	for _, l := range p.roots(call.Common().Args[di]) {
 		if l.Root.Kind == RParam && l.Root.Param == a {
 			return false
